@@ -452,7 +452,7 @@ def check(run):
     # ---- phase 3: replay through the real code + V ------------------------------------------------
     # scenarios that also go through the decode1090 program: attacks and the first abstract histories of
     # every shard, every NL-transition scenario, the first random 2-D scenarios
-    take = {"h": 20000 if thorough else 1500, "n": 10 ** 9, "r": 150 if thorough else 12}
+    take = {"h": 20000 if thorough else 1500, "n": 10 ** 9, "r": 60 if thorough else 40}
     d_path = os.path.join(run.work, "d1090.scen.ndjson")
     with open(d_path, "w") as out:
         for path, n, r in gens:
